@@ -31,8 +31,14 @@ passed=$(grep -E "^test result" "$LOG/suite.log" | awk '{p+=$4; f+=$6} END {prin
 res "suite_with_patch rc=$rc_suite $passed"
 # 4. our check against the mutated tree
 cd /verif
+if [ -n "${AGV_CHECK_LOG:-}" ]; then
+  # the check against the mutated tree was run separately (in parallel, own worktree and shadow)
+  v=$(grep -E '^VIOLATION' "$AGV_CHECK_LOG" | head -1); if [ -n "$v" ]; then rc_chk=1; else rc_chk=0; fi
+  res "check rc=$rc_chk $v"
+else
 env -u CARGO_TARGET_DIR AGV_REPO=$WT AGV_SHADOW=$SH ./check "$PID" > "$LOG/check.log" 2>&1; rc_chk=$?
 res "check rc=$rc_chk $(grep -E '^VIOLATION' "$LOG/check.log" | head -1)"
+fi
 # 5. store
 mkdir -p /verif/seeded/$NAME
 cp "$OUT/patch.diff" /verif/seeded/$NAME/patch.diff; cp "$OUT/demo.rs" /verif/seeded/$NAME/demo.rs
